@@ -1,4 +1,4 @@
-//verif:needs core
+//verif:needs core,sip,lab
 package main
 
 // C15 - dialog pins live exactly as long as promised and are forgotten on
@@ -9,6 +9,7 @@ package main
 
 import (
 	"fmt"
+	"strings"
 	"testing"
 	"time"
 
@@ -214,4 +215,295 @@ func TestC15(t *testing.T) {
 			failf(rt, "table holds %d pins, at most %d are within lifetime or expired less than 1.5 T ago [%s]", len(dbb.backends), live, hist)
 		}
 	})
+
+	// ---- lab part: the wiring (dialogTimeout, Expires, BYE / NOTIFY paths) on a real proxy
+	c15Lab(t)
+}
+
+type c15Dlg struct {
+	id        string
+	callID    string
+	at        labRx
+	pinned    string
+	pinBefore time.Time
+	pinAfter  time.Time
+	life      time.Duration
+}
+
+func c15Lab(t *testing.T) {
+	V.Require("lab: BYE answered dissolves the pin", "lab: NOTIFY terminated dissolves the pin", "lab: NOTIFY active keeps the pin", "lab: probe before expiry", "lab: probe after expiry", "lab: Expires extends the lifetime")
+	svc, err := newStdSvc(stdVariant{Pool: 4, Timeout: 1})
+	if err != nil {
+		V.HarnessError(t, "cannot start lab instance: %v", err)
+	}
+	s := svc
+	l := s.in.cfg.Listens[0]
+	for _, b := range l.Backends {
+		_, hp, _ := strings.Cut(b, "://")
+		host, port := splitHostPort(hp)
+		s.in.hub.udpEP("backend-udp", host, port)
+	}
+	ua := s.uas[0]
+	send := func(b []byte) error { return ua.sendUDP(l.Addr, l.UDPPort, b) }
+	lastRR := ""
+	request := func(method, callID, fromTag, toTag, extra string) ([]labRx, error) {
+		to := "<sip:b@nomatch.example>"
+		if toTag != "" {
+			to += ";tag=" + toTag
+		}
+		wire := []byte(fmt.Sprintf("%s sip:svc.test SIP/2.0\r\nVia: SIP/2.0/UDP %s:5060;branch=z9hG4bK%s;rport\r\nFrom: <sip:a@a.example>;tag=%s\r\nTo: %s\r\nCall-ID: %s\r\nCSeq: 1 %s\r\n%sContent-Length: 0\r\n\r\n", method, ua.ip, s.nextID("c15b"), fromTag, to, callID, method, extra))
+		s.model.learnRequest(s.model.transport(0, "udp"), ua.ip, &AMsg{IsReq: true, Hdrs: []AHdr{{Kind: hVia, Vias: []AVia{{Host: ua.ip}}}}})
+		s.in.expect(wire)
+		if err := send(wire); err != nil {
+			return nil, err
+		}
+		rs, err := s.in.settle(send, 1)
+		return labMessages(rs), err
+	}
+	answer := func(at labRx, code int, toTag, extra string) error {
+		resp := buildResponse(at.msg, code, "Answer", toTag, extra)
+		ep := at.ep
+		bsend := func(b []byte) error { return ep.sendUDP(l.Addr, l.UDPPort, b) }
+		s.in.expect(resp)
+		if err := bsend(resp); err != nil {
+			return err
+		}
+		_, err := s.in.settle(bsend, 1)
+		return err
+	}
+	key := func(r labRx) string { return fmt.Sprintf("%s:%d", r.ep.ip, r.ep.port) }
+	order := []string{}
+	for _, b := range l.Backends {
+		_, hp, _ := strings.Cut(b, "://")
+		order = append(order, hp)
+	}
+	next := func() string {
+		for i, k := range order {
+			if k == lastRR {
+				return order[(i+1)%len(order)]
+			}
+		}
+		return ""
+	}
+	// steer the rotation so that the next load-balanced request would NOT go to avoid
+	steer := func(avoid string) error {
+		for i := 0; i < len(order)+1; i++ {
+			if n := next(); n != "" && n != avoid {
+				return nil
+			}
+			got, err := request("OPTIONS", "c15-filler-"+s.nextID("f"), "x", "", "")
+			if err != nil || len(got) != 1 {
+				return fmt.Errorf("filler request not delivered: %v", err)
+			}
+			lastRR = key(got[0])
+		}
+		return nil
+	}
+	pin := func(expires string) (*c15Dlg, error) {
+		d := &c15Dlg{id: s.nextID("c15d")}
+		d.callID = "c15-" + d.id
+		got, err := request("INVITE", d.callID, "f"+d.id, "", "")
+		if err != nil || len(got) != 1 {
+			return nil, fmt.Errorf("INVITE not delivered to one backend: %v\n%s", err, labDescribe(got))
+		}
+		d.at, d.pinned = got[0], key(got[0])
+		lastRR = d.pinned
+		extra := ""
+		d.life = time.Second
+		if expires != "" {
+			extra = "Expires: " + expires + "\r\n"
+			var n int64
+			fmt.Sscanf(expires, "%d", &n)
+			if time.Duration(n)*time.Second > d.life {
+				d.life = time.Duration(n) * time.Second
+			}
+		}
+		d.pinBefore = time.Now()
+		err = answer(d.at, 200, "t"+d.id, extra)
+		d.pinAfter = time.Now()
+		return d, err
+	}
+	// probe returns whether the in-dialog request reached the pinned backend
+	probe := func(d *c15Dlg, method, extra string) (bool, time.Time, time.Time, error) {
+		if err := steer(d.pinned); err != nil {
+			return false, time.Time{}, time.Time{}, err
+		}
+		before := time.Now()
+		got, err := request(method, d.callID, "f"+d.id, "t"+d.id, extra)
+		after := time.Now()
+		if err != nil || len(got) != 1 {
+			return false, before, after, fmt.Errorf("in-dialog %s not delivered to exactly one backend: %v\n%s", method, err, labDescribe(got))
+		}
+		k := key(got[0])
+		if k != d.pinned {
+			lastRR = k
+		}
+		return k == d.pinned, before, after, nil
+	}
+	lost := func(err error) bool { _, ok := err.(labLost); return ok }
+
+	rcheck(t, "lab-termination", V.N(60, 400), func(rt *rapid.T) {
+		d, err := pin("")
+		if err != nil {
+			if lost(err) {
+				failf(rt, "%v", err)
+			}
+			V.HarnessError(rt, "%v", err)
+		}
+		hist := []string{"INVITE/200 pins " + d.id + " to " + d.pinned}
+		V.Journal(t.Name()+"/lab-termination", hist)
+		expectPinned := true
+		dontCare := false
+		steps := rapid.IntRange(1, 4).Draw(rt, "steps")
+		for i := 0; i < steps; i++ {
+			switch rapid.IntRange(0, 3).Draw(rt, "op") {
+			case 0: // BYE answered by the backend with any final status
+				code := rapid.SampledFrom([]int{200, 202, 403, 408, 481, 500, 503, 603}).Draw(rt, "bye status")
+				stuck, _, _, err := probe(d, "BYE", "")
+				if err != nil {
+					failf(rt, "%v\nhistory: %v", err, hist)
+				}
+				hist = append(hist, fmt.Sprintf("BYE (reached pinned backend: %v), answered %d", stuck, code))
+				if expectPinned && !dontCare && !stuck {
+					failf(rt, "BYE of a pinned dialog was not delivered to the pinned backend %s\nhistory: %v", d.pinned, hist)
+				}
+				if stuck {
+					// the backend that got the BYE answers it
+					got, _ := request("OPTIONS", "c15-noop-"+s.nextID("n"), "x", "", "")
+					if len(got) == 1 {
+						lastRR = key(got[0])
+					}
+					byeAt := d.at
+					_ = byeAt
+				}
+				// answer from the pinned backend (it received the BYE when stuck)
+				if stuck {
+					if err := answerBye(s, l, d, code); err != nil {
+						if lost(err) {
+							failf(rt, "%v", err)
+						}
+						V.HarnessError(rt, "%v", err)
+					}
+					expectPinned = false
+					V.Class("lab: BYE answered dissolves the pin")
+				}
+			case 1: // NOTIFY terminated
+				stuck, _, _, err := probe(d, "NOTIFY", "Subscription-State: terminated\r\nEvent: x\r\n")
+				if err != nil {
+					failf(rt, "%v\nhistory: %v", err, hist)
+				}
+				hist = append(hist, fmt.Sprintf("NOTIFY terminated (reached pinned backend: %v)", stuck))
+				if !dontCare && stuck != expectPinned {
+					failf(rt, "NOTIFY (Subscription-State: terminated) reached the pinned backend: %v, expected %v\nhistory: %v", stuck, expectPinned, hist)
+				}
+				if expectPinned {
+					V.Class("lab: NOTIFY terminated dissolves the pin")
+				}
+				expectPinned = false
+			case 2: // NOTIFY active / terminated with reason (don't-care)
+				state := rapid.SampledFrom([]string{"active", "active;expires=30", "pending", "terminated;reason=timeout"}).Draw(rt, "state")
+				stuck, _, _, err := probe(d, "NOTIFY", "Subscription-State: "+state+"\r\nEvent: x\r\n")
+				if err != nil {
+					failf(rt, "%v\nhistory: %v", err, hist)
+				}
+				hist = append(hist, fmt.Sprintf("NOTIFY %s (reached pinned backend: %v)", state, stuck))
+				if !dontCare && stuck != expectPinned {
+					failf(rt, "NOTIFY (Subscription-State: %s) reached the pinned backend: %v, expected %v\nhistory: %v", state, stuck, expectPinned, hist)
+				}
+				if strings.HasPrefix(state, "terminated") {
+					dontCare = true
+				} else if expectPinned {
+					V.Class("lab: NOTIFY active keeps the pin")
+				}
+			default: // plain in-dialog probe
+				m := rapid.SampledFrom([]string{"INFO", "UPDATE", "MESSAGE"}).Draw(rt, "method")
+				stuck, _, _, err := probe(d, m, "")
+				if err != nil {
+					failf(rt, "%v\nhistory: %v", err, hist)
+				}
+				hist = append(hist, fmt.Sprintf("%s (reached pinned backend: %v)", m, stuck))
+				if !dontCare && stuck != expectPinned {
+					failf(rt, "in-dialog %s reached the pinned backend: %v, expected %v (a dissolved pin must be load-balanced, a live one honoured)\nhistory: %v", m, stuck, expectPinned, hist)
+				}
+			}
+			V.Journal(t.Name()+"/lab-termination", hist)
+		}
+		V.NonTrivial(strings.Join(hist[1:], "|"))
+		V.SampleEvery(20, func() any { return hist })
+	})
+
+	t.Run("lab-expiry", func(t *testing.T) {
+		rounds := V.N(2, 10)
+		for r := 0; r < rounds && V.ViolationCount() == 0; r++ {
+			var ds []*c15Dlg
+			for i := 0; i < 12; i++ {
+				exp := []string{"", "", "", "3", "2147483647", "0"}[i%6]
+				d, err := pin(exp)
+				if err != nil {
+					if lost(err) {
+						V.Violation(t, "", nil, "%v", err)
+						return
+					}
+					V.HarnessError(t, "%v", err)
+				}
+				ds = append(ds, d)
+			}
+			judge := func(d *c15Dlg, phase string) bool {
+				stuck, before, after, err := probe(d, "INFO", "")
+				V.Eval()
+				if err != nil {
+					V.Violation(t, "", d.id, "%v", err)
+					return false
+				}
+				latest := after.Sub(d.pinBefore)
+				earliest := before.Sub(d.pinAfter)
+				desc := map[string]any{"dialog": d.id, "lifetime": d.life.String(), "phase": phase, "age_between": []string{earliest.String(), latest.String()}}
+				switch {
+				case latest < d.life:
+					V.Class("lab: probe before expiry")
+					V.ClassIf(d.life > time.Second, "lab: Expires extends the lifetime")
+					V.NonTrivial(fmt.Sprintf("%s|%s|before", d.id, phase))
+					if !stuck {
+						V.Violation(t, "", desc, "pin (dialogTimeout 1 s, lifetime %v) not honoured at age <= %v: the in-dialog request was load-balanced", d.life, latest)
+						return false
+					}
+				case earliest >= d.life:
+					V.Class("lab: probe after expiry")
+					V.NonTrivial(fmt.Sprintf("%s|%s|after", d.id, phase))
+					if stuck {
+						V.Violation(t, "", desc, "pin (lifetime %v) still honoured at age >= %v", d.life, earliest)
+						return false
+					}
+				}
+				return true
+			}
+			time.Sleep(300 * time.Millisecond)
+			for _, d := range ds {
+				if !judge(d, "early") {
+					return
+				}
+			}
+			time.Sleep(time.Until(ds[len(ds)-1].pinAfter.Add(1150 * time.Millisecond)))
+			for _, d := range ds {
+				if !judge(d, "after the dialog timeout") {
+					return
+				}
+			}
+			V.Sample(fmt.Sprintf("round %d: 12 dialogs (Expires absent/3/2147483647/0) probed at ~0.3 s and ~1.2 s", r))
+		}
+	})
+}
+
+// answerBye lets the pinned backend answer the BYE it received last.
+func answerBye(s *stdSvc, l labListenCfg, d *c15Dlg, code int) error {
+	resp := []byte(fmt.Sprintf("SIP/2.0 %d Bye\r\nVia: SIP/2.0/UDP %s:%d;branch=z9hG4bK%s\r\nVia: SIP/2.0/UDP %s:5060;branch=z9hG4bKx;rport=5060;received=%s\r\nFrom: <sip:a@a.example>;tag=f%s\r\nTo: <sip:b@nomatch.example>;tag=t%s\r\nCall-ID: %s\r\nCSeq: 1 BYE\r\nContent-Length: 0\r\n\r\n",
+		code, l.Addr, l.UDPPort, s.nextID("c15p"), s.uas[0].ip, s.uas[0].ip, d.id, d.id, d.callID))
+	ep := d.at.ep
+	bsend := func(b []byte) error { return ep.sendUDP(l.Addr, l.UDPPort, b) }
+	s.in.expect(resp)
+	if err := bsend(resp); err != nil {
+		return err
+	}
+	_, err := s.in.settle(bsend, 1)
+	return err
 }
